@@ -29,12 +29,20 @@ Sub-check "sim"   one case = (simulator, product, simulation mode, maximum step,
                   DETERMINISTIC (fixed dates) or STOCHASTIC (jump times); maximum step eps in {T/4, T/2.5, 2T, T/5, T/10}
                   (T/5, T/10: gaps between the scripted jump times / to the maturity that are multiples of eps in decimal but
                   not in binary: 0.2 and 0.1 against 0.1, 0.5, 0.9, 1.0) and, for T = 0.9, {T/3 = 0.3, T/9 = 0.1, T/4};
-                  EXACT TIES {T (eps equal to the maturity), T/2 (equal to a date interval of the 2-date products and to the
+                  eps = inf (no cap, said with a number; spot-1); EXACT TIES {T (eps equal to the maturity), T/2 (equal to a date interval of the 2-date products and to the
                   gap left by u = 0.5), T/8}: every gap of the no-jump path is an exact binary multiple; MANY POINTS
-                  {T/50, T/200} on the 24 / 26-date products (50 to 200 inserted points, with and without jumps).
+                  {T/50, T/200} on the 24 / 26-date products (50 to 200 inserted points, with and without jumps);
+                  SMALL STEPS: Spot with T = 1e-4 and 1e-6 and eps = T/100 = 1e-6, 1e-8 (what eps = h**beta gives on a fine
+                  grid; an ABSOLUTE tolerance in the refinement shows there) with 0 / 1 (/ 2) jumps and the "near" script;
+                  GAPS JUST ABOVE A MULTIPLE OF EPS (script "near", 4 jumps per interval at eps(1+4e-6), + 3 eps(1+1e-6),
+                  + 2.5 eps, end - 2 eps(1+4e-6): the remainders of the first gap, of a gap between jumps and of the last gap
+                  exceed eps by 3e-6..8e-6 eps - far more than rounding, so they must be split) on spot-1 with eps = T/10
+                  (asian-y2 with T/20 in thorough).
     sizes         jump counts {0,1,2}^n; MANY jumps in one interval and none in the others (6 in the first / last / middle
                   interval; fixed dates: also (3,..,3)) with pairwise distinct uniforms (2j+1)/12 and with all-equal ones;
-                  many dates: counts all 0 / all 1 / (7k+1) mod 3 / one interval with 2; fixed dates additionally: a
+                  many dates: counts all 0 / all 1 / (7k+1) mod 3 / one interval with 2; A HUNDRED jumps on spot-1 (jump
+                  times, eps T/4 and T/10, distinct and all-equal uniforms; fixed dates on the non-coupled simulators only:
+                  the reference of the coupled fixed-date path enumerates 2^jumps coarse sums); fixed dates additionally: a
                   pre-computation for ZERO paths followed by one for a SINGLE path on the same object (a pass of the engine in
                   which a level needs no / one further path); jump times: a zero-path pre-computation before the second one.
     forms         the maturity of the product and the maximum step handed over as Python int (where integral), numpy scalar
@@ -46,7 +54,9 @@ Sub-check "sim"   one case = (simulator, product, simulation mode, maximum step,
                   asian-y2}; the 5 base simulators (levy-hem, chain-hem, copula-chain, coupling-hem, coupling-copula) x
                   {exact ties on spot-1 / asian-y2; many jumps on spot-1 / asian-y2 / asian-m3; many dates on asian-m24;
                   forms int / np}; thorough: every simulator of c15_util.SIMS x all 8 products, x the ties / many-jumps /
-                  many-dates groups (asian-w26 too), forms int / np / 0d on the 12 quick simulators.
+                  many-dates groups (asian-w26 too), forms int / np / 0d on the 12 quick simulators.  "near" script: one
+                  case per quick simulator (19) / per simulator of SIMS (thorough); small steps: 9 simulators (TINY_SIMS: the
+                  five classes, level-0 couplings, Merton, CGMY) x 2 horizons x {0 jump, 1 jump, near}, all SIMS in thorough.
     oracle        t[0]=0 and both components 0 there; times non-decreasing (strictly where the scripted jump times differ),
                   last = maturity; fixed dates: times = product dates; jump times: times = {0} + scripted jump times + {T};
                   jump component: at every product date (fixed) / jump time the increment since the previous point is the
@@ -88,6 +98,17 @@ Sub-check "sim"   one case = (simulator, product, simulation mode, maximum step,
                     does while it goes on using the object of the previous level; for the copula coupling in maximum-step
                     mode the copy stays at its level - cost).  Leaks through class attributes / module caches show up as a
                     changed kept path or as a failed oracle on the following paths.
+                  * other-parameters-object (right after other-object, every case, every simulator class, all three modes):
+                    a THIRD simulator of the same class and level with OTHER parameters - copy.deepcopy, public
+                    initialisation() for a product of the same kind with TWICE the maturity and (maximum-step mode) 2.5 times
+                    the maximum step, pre_computation, one path - is prepared and used, THEN the object of the case goes on
+                    simulating: the order "object 1 prepared, object 2 prepared, object 1 simulates" of the levels of a
+                    multilevel estimator (one maximum step per level).  A closure / table stored on the class or the module
+                    makes the following paths of the case carry the other object's maximum step or maturity
+                    (step-exceeds-maximum, times-decrease, last-time-not-maturity).
+                  * initialisation-for-another-product (right before initialisation-again): the object of the case ITSELF is
+                    initialised for that other product / maximum step, pre-computes and simulates one path; the
+                    initialisation-again that follows must leave nothing of the detour on the object.
 Sub-check "finer" the two copies of build_finer_grid (levyprocess.SimulationMaximumStep.create_build_finer_grid_fun and
                   coupling/helper.create_build_finer_grid_fun - markovchain.py, markovchainlevycopula.py and the couplings
                   reuse these two; the helper's function also refines the step from the last point to the declared
@@ -100,7 +121,16 @@ Sub-check "finer" the two copies of build_finer_grid (levyprocess.SimulationMaxi
                   * argument forms: eps and maturity as Python int (eps = 1), np.float64, np.float32, 0-d array on the
                     2-point arrays of the binary lattice: exactly the answer obtained with Python floats;
                   * many points: gaps of 64, 100, 128, 300, 1000 eps (maturity 1 and 3; no point / one early point / one
-                    point in the middle / two close points);
+                    point in the middle / two close points); SMALL STEPS: (maturity, eps) = (1e-4, 1e-6), (1e-6, 1e-8), the
+                    same point sets and a point at 35.5 eps (remainder of half a step);
+                  * gaps JUST ABOVE / BELOW A MULTIPLE OF EPS: k eps (1 + d), k in {1, 2, 3, 7}, d in {4e-9, 1e-6, 4e-6}
+                    (remainder eps(1 + k d) > eps: must be split; the step bound eps(1+1e-12) + 4 ulp per point sees a guard
+                    wider than rounding, e.g. np.isclose defaults) and d = -1e-6 (remainder below eps: no split), as the
+                    first gap, as a gap between two points and as the last gap to the maturity, for (maturity, eps) in
+                    {(1, 0.1), (2, 0.25), (1e-4, 1e-6), (1e-6, 1e-8)}, values 1-d / 2-d;
+                  * purity: before every call a SECOND function created for 2.5 eps and twice the maturity is called on the
+                    same arrays, and every call is repeated with the same arguments: same answer
+                    ("second-call-answers-differently");
                   * the arrays handed in are compared with copies taken before the call ("argument-modified").
                   Returned times must be
                   strictly increasing: consecutive times closer than 1e-9*eps are a violation (an inserted point at the
@@ -116,6 +146,10 @@ times are the cumulative sum of the repeatedly shortened steps, the originals ar
 maturity (u = 1 - 2^-53 in the last interval) came back a few ulps ABOVE the maturity which the library then appends exactly -
 last step of -1e-16, sqrt(dt) = nan in the last diffusion value; repaired in /repo by 32afd07 (refined times are clamped to the
 last original time) and judged since ("times-decrease:last-point-an-ulp-beyond-the-maturity").
+
+Tolerances on short horizons: two times are "the same" within 1e-12 max(1, T) for T >= 0.01 and within 1e-11 T below (T = 1e-4,
+1e-6), so that a remainder of 4e-6 steps of 1e-2 T stays visible; d = 1e-9 is not in NEAR_D because the check's own rule "an
+inserted point closer than 1e-9 eps to its neighbour is a duplicate" would meet the legitimate remainder of k d eps.
 
 Outside the alphabet (statement silent): where inside a long gap the extra points are put; presence of the interior product
 dates in jump-time mode (the library returns jump times and the maturity only); which variate feeds which jump inside one
@@ -149,7 +183,12 @@ RULE = (
     "copied; plus, on 5 base simulators (all in thorough): exact ties eps in {T,T/2,T/8}, 6 jumps in one interval and none in "
     "the others, 24/26 product dates with eps in {T/50,T/200}, maturity / eps / number of paths as int, numpy scalar, 0-d "
     "array; plus both build_finer_grid copies on all <=4-point time arrays of a 10-point decimal lattice x 6 eps and of a "
-    "9-point binary lattice (time 0, maturity, empty) x 5 eps, argument forms, gaps of up to 1000 eps, arguments unmodified; "
+    "9-point binary lattice (time 0, maturity, empty) x 5 eps, argument forms, gaps of up to 1000 eps, arguments unmodified, "
+    "gaps k*eps*(1+d) just above / below a multiple of eps for eps in {0.1, 0.25, 1e-6, 1e-8}, a second closure with other "
+    "parameters called in between and every call repeated; sims: the same near-multiple gaps as scripted jump times (one case "
+    "per simulator), horizons 1e-4 / 1e-6 with eps = T/100, a hundred jumps in one interval, and in every case a second object "
+    "of the same class with twice the maturity and 2.5 eps prepared before the object of the case goes on, and the object "
+    "itself initialised for that product and back; "
     "a case is non-trivial when at least one real path (or finer grid) was compared with the reference assembly from the "
     "scripted variates; distinct = distinct case dict"
 )
@@ -164,8 +203,9 @@ ASSUMPTIONS = [
 CHUNK = 4
 
 U_MENU = (0.1, 0.5, 0.9)
-EPS_FRACS = {"T/4": 0.25, "T/2.5": 0.4, "2T": 2.0, "T": 1.0, "T/2": 0.5, "T/8": 0.125}  # eps = fraction * T
-EPS_DIVS = {"T/5": 5.0, "T/10": 10.0, "T/3": 3.0, "T/9": 9.0, "T/50": 50.0, "T/200": 200.0}  # eps = T / divisor
+EPS_FRACS = {"T/4": 0.25, "T/2.5": 0.4, "2T": 2.0, "T": 1.0, "T/2": 0.5, "T/8": 0.125, "inf": math.inf}  # eps = fraction * T
+EPS_DIVS = {"T/5": 5.0, "T/10": 10.0, "T/3": 3.0, "T/9": 9.0, "T/50": 50.0, "T/200": 200.0, "T/20": 20.0,
+            "T/100": 100.0}  # eps = T / divisor
 # maximum steps per product: T/5 and T/10 divide the yearly maturities and the gaps between the scripted jump times exactly
 # in decimal but not in binary (0.2, 0.1 against the times 0.1, 0.5, 0.9, 1.0); T = 0.9 with eps = 0.3 and 0.1 likewise
 EPS_MENU = ["T/4", "T/2.5", "2T", "T/5", "T/10"]
@@ -182,6 +222,18 @@ LATTICE_B = [0.25 * k for k in range(0, 9)]
 FINER_EPS_B = [0.125, 0.25, 0.5, 0.75, 1.0]
 FINER_FORMS = ["int", "np64", "np32", "0d"]  # Python lists are rejected by the unchanged tree
 FINER_ACC_DIVS = [64, 100, 128, 300, 1000]
+# gaps JUST ABOVE a multiple of the maximum step, k * eps * (1 + d): the remainder eps * (1 + k d) exceeds eps by more than
+# rounding and must be split (a guard against rounding that is wider than rounding - np.isclose defaults, an absolute
+# tolerance - leaves a step longer than eps); d < 0: the remainder is below eps and must not be split
+NEAR_D = [4e-9, 1e-6, 4e-6, -1e-6]
+NEAR_K = [1, 2, 3, 7]
+# (declared maturity, eps) of the near-multiple inputs: ordinary steps and small ones, where an ABSOLUTE tolerance shows
+FINER_NEAR = [(1.0, 0.1), (2.0, 0.25), (1e-4, 1e-6), (1e-6, 1e-8)]
+FINER_TINY = [(1e-4, 1e-6), (1e-6, 1e-8)]  # (maturity, eps): 100 steps
+TINY_PRODUCTS = ["spot-tiny4", "spot-tiny6"]  # T = 1e-4, 1e-6 with eps = T/100
+TINY_SIMS = ["levy-hem", "levy-merton", "chain-hem", "chain-cgmy12", "copula-chain", "coupling-hem", "coupling-copula",
+             "coupling-hem-l0", "coupling-copula-l0"]
+NEAR_COUNT = 4  # jumps per interval of the "near" script
 # an inserted point closer than 1e-9 * eps to its neighbour is judged in gaps of at most this many maximum steps; in longer
 # gaps the rounding of the library's repeated subtraction of eps (relative to the GAP) may exceed the library's own tolerance
 # (1e-12 relative to EPS): such points are counted, not judged (see the module docstring)
@@ -190,6 +242,7 @@ QUICK_SIMS = ["levy-hem", "levy-merton", "chain-hem", "chain-cgmy12", "copula-ch
               "coupling-copula", "chain-hem-bst", "coupling-hem-bst", "coupling-hem-alias", "coupling-copula-bsta"]
 BASE5 = ["levy-hem", "chain-hem", "copula-chain", "coupling-hem", "coupling-copula"]
 MANY = 6  # "many" jumps in one interval
+HUNDRED = 100
 
 
 def _eps_of(name, T):
@@ -264,6 +317,13 @@ def cases(tier):
         for mat in (1.0, 3.0):
             for div in FINER_ACC_DIVS:
                 out.append({"sub": "finer", "copy": copy, "vals": "1d", "maturity": mat, "eps": mat / div, "k": "acc"})
+    # ... with small maximum steps (short horizon) and with gaps just above / below a multiple of the maximum step
+    for copy in ("levyprocess", "helper"):
+        for mat, eps in FINER_TINY:
+            out.append({"sub": "finer", "copy": copy, "vals": "1d", "maturity": mat, "eps": eps, "k": "acc"})
+        for vals in ("1d", "2d"):
+            for mat, eps in FINER_NEAR:
+                out.append({"sub": "finer", "copy": copy, "vals": vals, "maturity": mat, "eps": eps, "k": "near"})
     if thorough:
         sims = list(U.SIMS)
         prods = ["spot-1", "spot-05", "spot-09", "asian-y1", "asian-y2", "asian-m2", "asian-y3", "asian-m3"]
@@ -303,6 +363,18 @@ def cases(tier):
                 for ef in ("T/4", "T/10"):
                     sim_cases.append({"sub": "sim", "sim": sim, "prod": prod, "mode": "max", "eps": ef, "counts": counts,
                                       "scripts": "spread"})
+    # no maximum step at all, said with a number: eps = inf
+    for sim in base:
+        for counts in ([0], [2]):
+            sim_cases.append({"sub": "sim", "sim": sim, "prod": "spot-1", "mode": "max", "eps": "inf", "counts": counts})
+    # a hundred jumps in one interval (sizes beyond a handful)
+    for sim in base:
+        for mode, ef in (("jump", None), ("max", "T/4"), ("max", "T/10")):
+            sim_cases.append({"sub": "sim", "sim": sim, "prod": "spot-1", "mode": mode, "eps": ef, "counts": [HUNDRED],
+                              "scripts": "spread"})
+        if not (U.sim_class(sim).startswith("coupling") and U.SIMS[sim][2] > 0):
+            # (fixed dates, coupled: the reference enumerates the coarse moves of an interval, 2^jumps sums)
+            sim_cases.append({"sub": "sim", "sim": sim, "prod": "spot-1", "mode": "fixed", "eps": None, "tuples": [[HUNDRED], [0], [1]]})
     # many product dates, many refinement points
     for prod in (["asian-m24", "asian-w26"] if thorough else ["asian-m24"]):
         pats = _patterns(_n_intervals(prod))
@@ -327,6 +399,19 @@ def cases(tier):
                     for counts in ([0] * n, [1] * n):
                         sim_cases.append({"sub": "sim", "sim": sim, "prod": prod, "mode": "max", "eps": ef, "counts": counts,
                                           "form": form})
+    # jump times that leave a gap just above a multiple of the maximum step (first gap, between two jumps, last gap to the
+    # maturity), one case per simulator; small maximum steps (eps = 1e-6, 1e-8 on a short horizon)
+    near_sims = list(U.SIMS) if thorough else list(QUICK_SIMS) + short
+    for sim in near_sims:
+        for prod, ef in (("spot-1", "T/10"), ("asian-y2", "T/20")) if thorough else (("spot-1", "T/10"),):
+            sim_cases.append({"sub": "sim", "sim": sim, "prod": prod, "mode": "max", "eps": ef,
+                              "counts": [NEAR_COUNT] * _n_intervals(prod), "scripts": "near"})
+    for sim in (list(U.SIMS) if thorough else TINY_SIMS):
+        for prod in TINY_PRODUCTS:
+            sim_cases.append({"sub": "sim", "sim": sim, "prod": prod, "mode": "max", "eps": "T/100", "counts": [NEAR_COUNT],
+                              "scripts": "near"})
+            for counts in ([0], [1], [2]) if thorough else ([0], [1]):
+                sim_cases.append({"sub": "sim", "sim": sim, "prod": prod, "mode": "max", "eps": "T/100", "counts": counts})
     # what the pool does between pre_computation and the simulations, alternately by dill and by copy.deepcopy
     for i, c in enumerate(sim_cases):
         c["pool_copy"] = ("dill", "deepcopy")[i % 2]
@@ -381,6 +466,12 @@ def _locate(t, ref_t, tt):
     return idx
 
 
+def _time_tol(T):
+    """two times closer than this are the same time: 1e-12 on the horizons of order one, relative to the maturity on the
+    short ones (T = 1e-4, 1e-6: the maximum step is 1e-2 T, a remainder of 4e-6 steps must stay visible)"""
+    return 1e-12 * max(1.0, T) if T >= 0.01 else 1e-11 * T
+
+
 def _icls(n):
     return "intervals=1" if n == 1 else "intervals>1"
 
@@ -408,9 +499,29 @@ def _edge_script(counts):
     return tuple(out)
 
 
+def _near_script(case, counts):
+    """NEAR_COUNT jumps per interval whose times (from the start of the interval, eps the maximum step) are
+    eps(1+4e-6) | + 3 eps (1+1e-6) | + 2.5 eps | (interval length) - 2 eps (1+4e-6): the first gap, a gap between two jumps
+    and the last gap (to the maturity in the last interval) are just above a multiple of eps - their remainder exceeds eps
+    by 4e-6, 3e-6 and 8e-6 eps and must be split - and one gap leaves a remainder of eps / 2"""
+    prod = case["prod"]
+    T = U.PRODUCTS[prod][2]
+    eps = _eps_of(case["eps"], T)
+    dt = T / len(counts)
+    if any(c != NEAR_COUNT for c in counts) or dt < 9.5 * eps:
+        raise ValueError("near script: 4 jumps per interval of at least 10 maximum steps")
+    t1 = eps * (1 + 4e-6)
+    t2 = t1 + 3 * eps * (1 + 1e-6)
+    t3 = t2 + 2.5 * eps
+    t4 = dt - 2 * eps * (1 + 4e-6)
+    return tuple([t4 / dt, t3 / dt, t2 / dt, t1 / dt] for _ in counts)
+
+
 def _scripts_of(case, counts):
     """the jump-time scripts of a jump-time / maximum-step case: every multiset of the menu per interval ("std") or, for
     large counts / many dates ("spread"), pairwise distinct uniforms and all-equal uniforms; then the edge script"""
+    if case.get("scripts") == "near":
+        return [_near_script(case, counts)]
     if case.get("scripts") == "spread":
         spread = tuple([(2 * j + 1) / (2.0 * c) for j in reversed(range(c))] for c in counts)
         equal = tuple([U_MENU[k % 3]] * c for k, c in enumerate(counts))
@@ -561,6 +672,36 @@ def _other_object(sh, d, mode, n, kept):
                      f"could not simulate: {e!r}", None)
         return
     kept.reread("other-object")
+    # ... and a second object of the same class and level with ANOTHER maximum step and ANOTHER maturity is prepared (and
+    # simulates one path) before the object of the case goes on
+    sh.count("other_parameters_object_operations")
+    try:
+        d.other_parameters_object()
+    except U.ProtocolError:
+        raise
+    except Exception as e:
+        sh.violation(_raise_key(mode, d.cls, e, n) + ":other-parameters-object",
+                     f"{d.sim} {d.product_name} {mode}: a deep copy of the simulator initialised for twice the maturity (and 2.5 "
+                     f"times the maximum step) could not simulate: {e!r}", None)
+        return
+    kept.reread("other-parameters-object")
+
+
+def _detour(sh, d, mode, n, kept):
+    """history operation: the simulator of the case is initialised for another product (twice the maturity) and another
+    maximum step, pre-computes and simulates one path; the caller then re-initialises it for the product of the case"""
+    sh.count("detours_through_other_parameters")
+    try:
+        d.detour_other_parameters()
+    except U.ProtocolError:
+        raise
+    except Exception as e:
+        sh.violation(_raise_key(mode, d.cls, e, n) + ":initialisation-for-another-product",
+                     f"{d.sim} {d.product_name} {mode}: the simulator, initialised for twice the maturity (and 2.5 times the "
+                     f"maximum step), could not simulate: {e!r}", None)
+        return False
+    kept.reread("initialisation-for-another-product")
+    return True
 
 
 def _run_fixed(sh, case, sim, prod, cls):
@@ -645,7 +786,10 @@ def _run_fixed(sh, case, sim, prod, cls):
                 done, raised = batch(todo, pool, used_batch, len(tuples), middle_op=False)
                 if raised:
                     return
-                # third batch after the public initialisation() on the same object, as a second pricing does
+                # third batch after the public initialisation() on the same object, as a second pricing does (with a pricing of
+                # another product on the same object in between)
+                if not _detour(sh, d, "fixed", n, kept):
+                    return
                 script3 = [tuples[p][k] for k in range(n) for p in range(len(tuples))]
                 try:
                     d.precompute_again(script3, reinit=True)
@@ -702,6 +846,8 @@ def _run_jump(sh, case, sim, prod, cls, mode, eps):
         for q, us in enumerate(scripts):
             if q == len(scripts) - 1:
                 kept.reread("next-path")  # what changed before the operation is not the operation's
+                if not _detour(sh, d, mode, n, kept):
+                    return
                 try:
                     d.precompute_again(reinit=True)
                 except U.ProtocolError:
@@ -761,7 +907,7 @@ def _oracle(sh, d, mode, eps, counts, us, t, D, J, pool, used_batch, p_index):
     n = len(G) - 1
     T = d.maturity
     icls = _icls(n)
-    tt = 1e-12 * max(1.0, T)
+    tt = _time_tol(T)
     dim = d.dim
     m1 = len(t)
 
@@ -902,7 +1048,7 @@ def _oracle(sh, d, mode, eps, counts, us, t, D, J, pool, used_batch, p_index):
     # ---- diffusion component: every increment is one fresh scaled variate (per coordinate)
     coefs = d.diffusion_coefficients()
     dts = np.diff(t)
-    small = 1e-9 * (eps if eps else T)
+    small = 1e-9 * (min(eps, T) if eps else T)
     for c, (Dc, _) in enumerate(comps):
         C = coefs[c]
         name = "fine" if c == 0 else "coarse"
@@ -1123,6 +1269,19 @@ def _finer_inputs(case):
     if k == "acc":
         # long gaps: no point at all / one early point / one point in the middle / two close points
         sets = [(), (0.1 * mat,), (0.5 * mat,), (0.3 * mat, 0.35 * mat)]
+        if (mat, case["eps"]) in FINER_TINY:
+            sets.append((0.355 * mat,))  # remainder of half a step
+        if case["copy"] == "levyprocess":
+            sets = [ts + (mat,) for ts in sets]  # this copy is handed the maturity by its caller
+        return sets
+    if k == "near":
+        eps, sets = case["eps"], []
+        for kk in NEAR_K:
+            for dd in NEAR_D:
+                g = kk * eps * (1 + dd)
+                sets.append((g,))  # first gap
+                sets.append((0.37 * eps, 0.37 * eps + g))  # gap between two points
+                sets.append((mat - g,))  # last gap, to the maturity
         if case["copy"] == "levyprocess":
             sets = [ts + (mat,) for ts in sets]  # this copy is handed the maturity by its caller
         return sets
@@ -1134,6 +1293,9 @@ def _sub_finer(sh, case):
     copy, vals, mat, eps, k = case["copy"], case["vals"], case["maturity"], case["eps"], case["k"]
     form = case.get("form")
     f = _finer_fun(copy, eps, mat)
+    # a second function for another maximum step / maturity is created after `f` and called before every call of `f` (what the
+    # levels of a multilevel estimator do to each other): `f` must go on answering for ITS parameters
+    g_other = _finer_fun(copy, 2.5 * eps, 2.0 * mat)
     f_form = None
     if form is not None:
         e2, m2 = _finer_form(eps, form), _finer_form(mat, form)
@@ -1149,6 +1311,10 @@ def _sub_finer(sh, case):
         sh.cls("finer:binary-lattice")
     if k == "acc":
         sh.cls("finer:many-points")
+    if k == "near":
+        sh.cls("finer:gap-near-a-multiple-of-eps")
+    if eps < 1e-5:
+        sh.cls("finer:small-eps")
     nlong = 0
     for ts in _finer_inputs(case):
         times = np.array(ts, dtype=float)
@@ -1165,6 +1331,10 @@ def _sub_finer(sh, case):
         args_in = [times.copy(), v1.copy()] + ([v2.copy()] if copy == "helper" else [])
         args_ref = [a.copy() for a in args_in]
         try:
+            g_other(None, *[a.copy() for a in args_in])
+        except Exception:  # noqa
+            sh.count("other_closure_raises")
+        try:
             out = f(None, *args_in)
             at = np.array(out[0], dtype=float)
             avs = [np.array(o, dtype=float) for o in out[1:]]
@@ -1179,6 +1349,17 @@ def _sub_finer(sh, case):
                 sh.violation(f"{key0}:argument-modified:{nm}", f"times {ts} eps {eps}: the {nm} array handed in was {b}, is {a} after "
                              f"the call", detail)
                 break
+        # a pure function: the same arguments again, the same answer
+        try:
+            out_b = f(None, *[a.copy() for a in args_ref])
+            again = len(out_b) == len(out) and all(np.shape(x) == np.shape(y) and np.array_equal(np.asarray(x, dtype=float), np.asarray(y, dtype=float))
+                                                   for x, y in zip(out_b, out))
+        except Exception as e:  # noqa
+            again, out_b = False, repr(e)
+        sh.count("second_calls")
+        if not again:
+            sh.violation(f"{key0}:second-call-answers-differently", f"times {ts} eps {eps}: first call {[np.asarray(o) for o in out]}, "
+                         f"second call with the same arguments {out_b if isinstance(out_b, str) else [np.asarray(o) for o in out_b]}", detail)
         # other legal forms of the arguments: same answer
         if f_form is not None:
             sh.count("form_comparisons")
@@ -1205,7 +1386,7 @@ def _sub_finer(sh, case):
         if np.any(np.diff(at) < 0):
             sh.violation(f"{key0}:times-decrease", f"times {ts} eps {eps}: {at}", detail)
             continue
-        tt = 1e-12
+        tt = _time_tol(mat)
         steps = np.diff(np.concatenate(([0.0], at)))
         ends = at
         if copy == "helper" and (m == 0 or at[-1] <= mat):
